@@ -338,10 +338,42 @@ def compare_serde(c, impl, tags):
     return files, records, evals
 
 
+def compare_assoc(c, impl, tags):
+    """SAFT-VR Mie: cross-association parameters of every site pair A_i-B_j against the override model"""
+    mods = tags.get("ASSOC", [None])[0]
+    if not isinstance(mods, list) or len(mods) != len(impl["assoc"]):
+        c.fail("assoc", -1, "model output for ASSOC missing or of wrong length", None, str(mods)[:200], None, False)
+        return
+    for i, (mv, iv) in enumerate(zip(mods, impl["assoc"])):
+        c.count("assoc")
+        case = {k: iv[k] for k in ("sites_na_nb", "binary_epsilon_k_ab/64", "binary_rc_ab*64")}
+        if iv["with"] is None or iv["base"] is None:
+            c.fail("assoc", i, "SaftVRMieParameters::from_records fails / panics on associating components with binary association records",
+                   case, str(mv)[:300], iv)
+            continue
+        acomps = [k for k, (na, nb) in enumerate(iv["sites_na_nb"]) if na > 0]
+        bcomps = [k for k, (na, nb) in enumerate(iv["sites_na_nb"]) if nb > 0]
+        for (a, b, oe, orc) in mv:
+            x, y = acomps.index(a), bcomps.index(b)
+            for name, ov, scale in (("epsilon_k_ab", oe, 64.0), ("rc_ab", orc, 1 / 64.0)):
+                got = iv["with"][name][x][y]
+                want = iv["base"][name][x][y] if ov == "None" else ov[1] * scale
+                if got != want:
+                    c.fail("assoc", i, "SaftVRMieParameters::from_records: cross-association parameter of a site pair differs from the binary record "
+                           "(depends on the order of the components)", case,
+                           {"site_pair": "A sites of component %d - B sites of component %d" % (a, b), "parameter": name,
+                            "expected": want, "from": "combining rule (no binary value)" if ov == "None" else "binary record"},
+                           {"got": got, name: iv["with"][name]})
+                    break
+            else:
+                continue
+            break
+
+
 def evaluate(ctx, impl, res):
     c = Cmp(ctx)
     outs = {}
-    for name in ("lookup", "segments", "serde"):
+    for name in ("lookup", "segments", "serde", "assoc"):
         r = res[os.path.join(ctx.gen, name + ".v")]
         outs[name] = V.tagged(r["out"]) if r["rc"] == 0 else {}
         if r["rc"] != 0:
@@ -351,6 +383,7 @@ def evaluate(ctx, impl, res):
     hstats = compare_homo(c, impl, outs["segments"])
     compare_hetero(c, impl, outs["segments"])
     files, records, evals = compare_serde(c, impl, outs["serde"])
+    compare_assoc(c, impl, outs["assoc"])
     return c, hstats, files, records, evals
 
 
@@ -405,7 +438,7 @@ def run(ctx):
     cov = {
         "obligations": lib["obligations"] + len(gen_files),
         "discharged": lib["discharged"] + gen_ok,
-        "checker_cmd": "make -C coq (coqc 8.16.1, full .vo) ; coqc coq/props/C14.v ; coqc coq/gen/C14/{lookup,segments,serde}.v",
+        "checker_cmd": "make -C coq (coqc 8.16.1, full .vo) ; coqc coq/props/C14.v ; coqc coq/gen/C14/{lookup,segments,serde,assoc}.v",
         "trusted_base": [
             "Coq 8.16.1 kernel incl. the VM (vm_compute)",
             "no axioms: Print Assumptions reports 'Closed under the global context' for every theorem of props/C14.v",
